@@ -176,11 +176,28 @@ def OrdList.findPos (l : OrdList) (dbl : Bool) (m : Nat) : PosOut :=
     else .unreachable
   | _, _ => .crash
 
+/-- With assertions on (`FOONATHAN_MEMORY_DEBUG_ASSERT`): does `find_pos` enter `find_pos_interval` with the asserted
+precondition `less(first, memory) && less(memory, last)` violated? The assertion then stops the program before the
+search. (Same branch selection as `findPos`.) -/
+def OrdList.intervalAssertFails (l : OrdList) (m : Nat) : Bool :=
+  let n := l.nodes.length
+  let first := if n = 0 then n + 1 else 1
+  let last := if n = 0 then 0 else n
+  match l.posOf l.ld with
+  | some ld =>
+    if l.addr first > m then false
+    else if l.addr last < m then false
+    else if l.ldp < m && m < l.ld then false
+    else if ld = n + 1 || m < l.ld then !(l.addr first < m && m < l.ldp)
+    else if m > l.ld then !(l.ld < m && m < l.addr last)
+    else false
+  | none => false
+
 inductive ListRes (α : Type)
   | ok (l : α)
   | handler (kind : String)
   | crash
-deriving Repr
+deriving Repr, DecidableEq
 
 /-- insert `newNodes` after position `prev` (0 = at the front) -/
 def OrdList.spliceAt (l : OrdList) (prev : Nat) (newNodes : List Nat) : List Nat :=
@@ -190,6 +207,7 @@ def OrdList.spliceAt (l : OrdList) (prev : Nat) (newNodes : List Nat) : List Nat
 def OrdList.insertImpl (cfg : Cfg) (l : OrdList) (mem size : Nat) : ListRes (OrdList × Nat) :=
   let k := size / l.ns
   if k = 0 then .crash
+  else if cfg.assert && l.intervalAssertFails mem then .handler "assert"
   else match l.findPos cfg.dblDealloc mem with
     | .pos prev next =>
       if next ≠ prev + 1 then .crash
@@ -239,6 +257,7 @@ def OrdList.allocateBytes (l : OrdList) (n : Nat) : Option (OrdList × Option Na
 
 /-- `deallocate(ptr)` -/
 def OrdList.deallocate (cfg : Cfg) (l : OrdList) (p : Nat) : ListRes OrdList :=
+  if cfg.assert && l.intervalAssertFails p then .handler "assert" else
   match l.findPos cfg.dblDealloc p with
   | .pos prev next =>
     if next ≠ prev + 1 then .crash
@@ -379,42 +398,58 @@ def SmallList.fromAt (l : SmallList) (i p : Nat) : Bool :=
     | none => false
     | some c => decide (c.base + chunkOff ≤ p ∧ p < c.base + chunkOff + c.noNodes * l.ns)
 
-/-- `find_chunk_impl(node, first, last)`: both-ends search over ring positions -/
-def SmallList.findChunkRange (l : SmallList) (p : Nat) (first last : Nat) : Option Nat :=
+/-- result of the chunk search for a pointer -/
+inductive ChunkSearch
+  | found (i : Nat)     -- ring position of the chunk whose node area contains the pointer
+  | notFound            -- `nullptr`
+  | unreachable         -- `FOONATHAN_MEMORY_UNREACHABLE`
+  | hang                -- the loop would not terminate (fuel exhausted; `C16_small_search_terminates`: never happens)
+deriving Repr, DecidableEq
+
+/-- `find_chunk_impl(node, first, last)`: both-ends search over ring positions. The loop continues while
+`!greater(first, last) && first != &base_ && last != &base_` (position 0 is the proxy `base_`). -/
+def SmallList.findChunkRange (l : SmallList) (p : Nat) (first last : Nat) : ChunkSearch :=
   let m := l.chunks.length + 1
-  let rec go (fuel : Nat) (f b : Nat) : Option Nat :=
+  let rec go (fuel : Nat) (f b : Nat) : ChunkSearch :=
     match fuel with
-    | 0 => none
+    | 0 => .hang
     | fuel + 1 =>
-      if l.fromAt f p then some f
-      else if l.fromAt b p then some b
+      if l.fromAt f p then .found f
+      else if l.fromAt b p then .found b
       else
         let f' := (f + 1) % m
         let b' := (b + m - 1) % m
-        if l.addrAt f' > l.addrAt b' then none else go fuel f' b'
+        if l.addrAt f' > l.addrAt b' || f' == 0 || b' == 0 then .notFound else go fuel f' b'
   go (m + 2) first last
 
 /-- `find_chunk_impl(node)` -/
-def SmallList.findChunk (l : SmallList) (p : Nat) : Option (Option Nat) :=
+def SmallList.findChunk (l : SmallList) (p : Nat) : ChunkSearch :=
   let m := l.chunks.length + 1
   match l.posOf l.deallocChunk, l.posOf l.allocChunk with
   | some d, some a =>
-    if l.fromAt d p then some (some d)
-    else if l.fromAt a p then some (some a)
-    else if l.addrAt d < p then some (l.findChunkRange p ((d + 1) % m) ((0 + m - 1) % m))
-    else if l.addrAt d > p then some (l.findChunkRange p (1 % m) ((d + m - 1) % m))
-    else none     -- unreachable
-  | _, _ => none
+    if l.fromAt d p then .found d
+    else if l.fromAt a p then .found a
+    else if l.addrAt d < p then l.findChunkRange p ((d + 1) % m) ((0 + m - 1) % m)
+    else if l.addrAt d > p then l.findChunkRange p (1 % m) ((d + m - 1) % m)
+    else .unreachable
+  | _, _ => .unreachable
 
-/-- `deallocate(node)` with its three checks -/
+/-- the state after a successful `deallocate` of `p` into chunk `c` at ring index `i + 1` -/
+def SmallList.deallocResult (l : SmallList) (i : Nat) (c : Chunk) (p : Nat) : SmallList :=
+  { l with chunks := l.chunks.set i
+             { c with capacity := c.capacity + 1, free := (p - (c.base + chunkOff)) / l.ns :: c.free },
+           cap := l.cap + 1, deallocChunk := c.base }
+
+/-- `deallocate(node)` with its three checks; the cursor `dealloc_chunk_` is only updated after they passed -/
 def SmallList.deallocate (cfg : Cfg) (l : SmallList) (p : Nat) : ListRes SmallList :=
   match l.findChunk p with
-  | none => .handler "unreachable"
-  | some none =>
-    -- dealloc_chunk_ = nullptr; the pointer check reports, otherwise null dereference
+  | .unreachable => .handler "unreachable"
+  | .hang => .handler "hang"
+  | .notFound =>
+    -- chunk = nullptr; the pointer check reports, otherwise null dereference
     if cfg.ptrCheck then .handler "invalid_pointer" else .crash
-  | some (some 0) => .crash
-  | some (some (i + 1)) =>
+  | .found 0 => .crash
+  | .found (i + 1) =>
     match l.chunks[i]? with
     | none => .crash
     | some c =>
@@ -423,9 +458,7 @@ def SmallList.deallocate (cfg : Cfg) (l : SmallList) (p : Nat) : ListRes SmallLi
       else
         let idx := off / l.ns
         if cfg.ptrCheck && cfg.dblDealloc && c.free.contains idx then .handler "invalid_pointer"
-        else
-          let c' := { c with capacity := c.capacity + 1, free := idx :: c.free }
-          .ok { l with chunks := l.chunks.set i c', cap := l.cap + 1, deallocChunk := c.base }
+        else .ok (l.deallocResult i c p)
 
 def SmallList.empty (l : SmallList) : Bool := l.cap == 0
 def SmallList.usableSize (l : SmallList) (size : Nat) : Nat :=
